@@ -1,3 +1,4 @@
+CONSTANT DelayedSetsVersion <- TreeDelayedSetsVersion
 SPECIFICATION Spec
 INVARIANT DevSeen
 CHECK_DEADLOCK FALSE
